@@ -14,7 +14,12 @@
 
 static int resolve_link(fstree_t *fs, tree_node_t *node)
 {
-	tree_node_t *start = node;
+	tree_node_t *start = node, *it;
+	size_t hops = 0, max_hops = 0;
+
+	/* a chain that visits more unresolved links than exist has a cycle */
+	for (it = fs->links_unresolved; it != NULL; it = it->next_by_type)
+		max_hops += 1;
 
 	for (;;) {
 		if (!S_ISLNK(node->mode) || !(node->flags & FLAG_LINK_IS_HARD))
@@ -28,6 +33,11 @@ static int resolve_link(fstree_t *fs, tree_node_t *node)
 						       false, false);
 			if (node == NULL)
 				return -1;
+
+			if (hops++ >= max_hops) {
+				errno = EMLINK;
+				return -1;
+			}
 		}
 
 		if (node == start) {
